@@ -51,6 +51,13 @@ Fixpoint wfor {A St} (l : list A) (st : St) (body : A -> St -> W St) : W St :=
   | a :: t => wbind (body a st) (fun st' => wfor t st' body)
   end.
 
+(* `continue` has no construct of its own: harness/pynorm.py turns `if c: [C;] continue` followed by B, at the top level of
+   a loop body, into `if c: C else: B` before the translation; any other `continue` is refused by the translator. *)
+
+(* `d in self.downstreams` / `d not in self.downstreams`: membership of a node in (the list read from) the live set; the
+   translator reads the set at the point of the test: wrd (fun w => node_in d (downstreams w)) *)
+Definition node_in (d : nat) (l : list nat) : bool := existsb (Nat.eqb d) l.
+
 Declare Scope pyw_scope.
 Delimit Scope pyw_scope with pyw.
 Notation "'do' x <- m ;; k" := (wbind m (fun x => k))
